@@ -1,7 +1,168 @@
 import Aqv.Base.Proto
-open Aqv Aqv.Proto
+import Aqv.Base.Keccak
+import Aqv.Model.Keystore
+open Aqv Aqv.Proto Aqv.Keystore
 
-/-- stub driver for C20 (answers every case line with "bad-op"); replaced when the property is built. -/
-def handle (l : String) : String := let _ := l; "bad-op\tagree"
+/-!
+  Model driver for C20.  Case lines (see go/harness/cmd/c20):
+    dk  <exp> <file: 11 fields> <pw> <kdfO> <ksO> <cbcO> <addrO>            -> ok <key32> <addr> | err <class> | panic
+    gk  <exp> <acct> <file: 11 fields> <pw> <kdfO> <ksO> <cbcO> <addrO>     -> ok <addr> | err <class> | panic
+    enc <d32> <addr> <id> <pw> <salt> <iv> <n> <p> <kdfO> <ksO>             -> ok <file: 11 fields> <address> <id>
+  The primitives (`Prims`) are instantiated with the VALUES supplied by the harness (finite tables) and the executable
+  Keccak-256; a value the model asks for that is not in the table shows up as a disagreement, never as agreement.
+-/
+
+def hexB (s : String) : Bytes := (bytesOfHex s).getD []
+
+def splitC (s : String) (c : Char) : List String := s.splitOn (String.singleton c)
+
+def parseJVal (s : String) : JVal :=
+  match s.toList with
+  | 'S' :: r => .str (hexB (String.ofList r))
+  | 'N' :: r => match (String.ofList r).toInt? with | some i => .num i | none => .other
+  | _ => .other
+
+def parseKp (s : String) : List (Bytes × JVal) :=
+  if s == "-" then [] else
+  (splitC s ',').filterMap fun e =>
+    match splitC e ':' with
+    | [k, v] => some (hexB k, parseJVal v)
+    | _ => none
+
+def parseFile (fs : List String) : Option KeyFile :=
+  match fs with
+  | [jo, vt, v1, v3, ver, cip, ct, iv, kdf, mac, kp] =>
+    let verTop := match vt.toList with
+      | 'S' :: r => some (hexB (String.ofList r))
+      | _ => none
+    some { jsonOk := jo == "1", verTop := verTop, v1ok := v1 == "1", v3ok := v3 == "1", version3 := (ver.toInt?).getD 0,
+           address := [], id := [],
+           crypto := { cipher := hexB cip, ciphertext := hexB ct, iv := hexB iv, kdf := hexB kdf, kdfparams := parseKp kp,
+                       mac := hexB mac } }
+  | _ => none
+
+def renderReq : KdfReq → String
+  | .scrypt pw salt n r p dk => s!"s:{hexOrDash pw}:{hexOrDash salt}:{n}:{r}:{p}:{dk}"
+  | .pbkdf2 pw salt c dk => s!"p:{hexOrDash pw}:{hexOrDash salt}:{c}:{dk}"
+
+def parseKdfRes (s : String) : KdfRes :=
+  match splitC s ':' with
+  | ["ok", buf, len] => .ok (hexB buf) (len.toNat?.getD 0)
+  | ["err"] => .err
+  | _ => .panic
+
+/-- builds the primitives from the oracle fields. -/
+def mkPrims (kdfO ksO cbcO adO : String) : Prims :=
+  let (kreq, kres) := match splitC kdfO '=' with
+    | [a, b] => (a, parseKdfRes b)
+    | _ => ("", KdfRes.panic)
+  let ks := match splitC ksO ':' with
+    | [k, iv, st] => some (hexB k, hexB iv, (hexB st).toArray)
+    | _ => none
+  let cbc := match splitC cbcO ':' with
+    | [k, iv, ct, out] => some (hexB k, hexB iv, hexB ct, hexB out)
+    | _ => none
+  let ads : List (Bytes × Bytes) := if adO == "-" then [] else
+    (splitC adO ',').filterMap fun e => match splitC e ':' with
+      | [k, a] => some (hexB k, hexB a)
+      | _ => none
+  { kdf := fun req => if renderReq req == kreq then kres else .panic,
+    H := Keccak.keccak256,
+    ks := fun k iv i => match ks with
+      | some (k', iv', st) => if k == k' && iv == iv' then st.getD i 0 else 0
+      | none => 0,
+    cbc := fun k iv ct => match cbc with
+      | some (k', iv', ct', out) => if k == k' && iv == iv' && ct == ct' then out else ct.map (fun _ => 0)
+      | none => ct.map (fun _ => 0),
+    addrOf := fun d => match ads.find? (fun e => e.1 == paddedBigBytes d 32) with
+      | some e => e.2
+      | none => [0x3f] }     -- renders as "3f": never equal to a 20-byte address
+
+/-- the request the model's getKDFKey makes (recorded by a KDF that returns its request), to detect a missing oracle. -/
+def strBytes (s : String) : Bytes := s.toUTF8.toList
+
+def modelKdfReq (c : Crypto) (pw : Bytes) : Option Bytes :=
+  let rec_ : Prims := { kdf := fun req => .ok (strBytes (renderReq req)) 0, H := id, ks := fun _ _ _ => 0, cbc := fun _ _ c => c,
+                        addrOf := fun _ => [] }
+  match getKDFKey rec_ c pw with
+  | .ok (buf, _) => some buf
+  | _ => none
+
+def errName : Err → String
+  | .json => "json" | .version => "version" | .cipher => "cipher"
+  | .hexMac => "hex" | .hexIv => "hex" | .hexCt => "hex" | .hexSalt => "hex"
+  | .kdf => "kdf" | .prf => "prf" | .unsupportedKdf => "unsupportedKdf" | .decrypt => "decrypt" | .mismatch => "mismatch"
+
+def renderKey (full : Bool) : Res Key → String
+  | .ok k => if full then s!"ok {hexOfBytes (paddedBigBytes k.d 32)} {hexOfBytes k.addr}" else s!"ok {hexOfBytes k.addr}"
+  | .err e => "err " ++ errName e
+  | .panic => "panic"
+
+/-- Spec: does the property accept what the real code did?  exp = R:<key>:<addr> | W | T:<key>:<addr>. -/
+def specAccepts (exp go : String) (full : Bool) : Bool :=
+  if go.startsWith "panic" then false else
+  match splitC exp ':' with
+  | ["W"] => go.startsWith "err"
+  | [kind, key, addr] =>
+    let orig := if full then s!"ok {key} {addr}" else s!"ok {addr}"
+    if kind == "R" then go == orig else go.startsWith "err" || go == orig
+  | _ => false
+
+def renderJVal : JVal → String
+  | .str s => "S" ++ hexOrDash s
+  | .num i => s!"N{i}"
+  | .other => "O"
+
+def renderFile (f : KeyFile) : String :=
+  let kp := if f.crypto.kdfparams.isEmpty then "-" else
+    ",".intercalate (f.crypto.kdfparams.map fun e => hexOrDash e.1 ++ ":" ++ renderJVal e.2)
+  let vt := match f.verTop with | some s => "S" ++ hexOrDash s | none => "N"
+  let b (x : Bool) := if x then "1" else "0"
+  " ".intercalate [b f.jsonOk, vt, b f.v1ok, b f.v3ok, s!"{f.version3}", hexOrDash f.crypto.cipher, hexOrDash f.crypto.ciphertext,
+    hexOrDash f.crypto.iv, hexOrDash f.crypto.kdf, hexOrDash f.crypto.mac, kp, hexOrDash f.address, hexOrDash f.id]
+
+def why := "key-file-outcome-violates-property"
+
+def runFile (full : Bool) (exp : String) (acct : Option Bytes) (ffs : List String) (pw kdfO ksO cbcO adO go : String) : String :=
+  match parseFile ffs with
+  | none => "bad-op\tspec-ok"
+  | some f =>
+    let P := mkPrims kdfO ksO cbcO adO
+    let pwb := hexB pw
+    -- a KDF request of the model that the harness did not answer is a broken correspondence
+    let miss := match modelKdfReq f.crypto pwb with
+      | some r => ((splitC kdfO '=').head?.map strBytes) != some r
+      | none => false
+    let m := if miss then "oracle-miss-kdf" else
+      match acct with
+      | none => renderKey full (decryptKey P f pwb)
+      | some a => renderKey full (getKey P a f pwb)
+    verdict m go (specAccepts exp go full) why
+
+def handle (l : String) : String :=
+  let (inp, go) := splitCase l
+  match fields inp with
+  | "dk" :: exp :: rest =>
+    if rest.length == 16 then
+      let ffs := rest.take 11
+      match rest.drop 11 with
+      | [pw, kdfO, ksO, cbcO, adO] => runFile true exp none ffs pw kdfO ksO cbcO adO go
+      | _ => "bad-op\tspec-ok"
+    else "bad-op\tspec-ok"
+  | "gk" :: exp :: acct :: rest =>
+    if rest.length == 16 then
+      let ffs := rest.take 11
+      match rest.drop 11 with
+      | [pw, kdfO, ksO, cbcO, adO] => runFile false exp (some (hexB acct)) ffs pw kdfO ksO cbcO adO go
+      | _ => "bad-op\tspec-ok"
+    else "bad-op\tspec-ok"
+  | ["enc", d, addr, id, pw, salt, iv, n, p, kdfO, ksO] =>
+    let P := mkPrims kdfO ksO "-" "-"
+    let m := match encryptKey P (beNat (hexB d)) (hexB addr) (hexB id) (hexB pw) (hexB salt) (hexB iv) ((n.toInt?).getD 0) ((p.toInt?).getD 0) with
+      | .ok f => "ok " ++ renderFile f
+      | .err e => "err " ++ errName e
+      | .panic => "panic"
+    verdict m go false "EncryptKey-output-differs-from-model"
+  | _ => "bad-op\tspec-ok"
 
 def main : IO Unit := runLines handle
